@@ -113,6 +113,7 @@ type FnVC struct {
 	trustedUsed map[string]bool
 	entryCheck *Obligation
 	splitNames []string // see `split`
+	rangeLocs  map[*ssa.Range]string // ghost byte position of string range iterators
 }
 
 func (c *FnVC) emit(s string)            { c.out = append(c.out, s) }
@@ -1055,7 +1056,7 @@ func (c *FnVC) frameObligationsAt(heap HeapState, reach, suffix string) {
 		sk := c.freshName("fl")
 		extra := []string{fmt.Sprintf("(declare-const %s Loc)", sk)}
 		inM := ms.inSet(k, sk)
-		goal := fmt.Sprintf("(=> (and (< (base %s) %s) %s) (= (select %s %s) (select %s %s)))", sk, a0, not(inM), hr, sk, h0, sk)
+		goal := fmt.Sprintf("(=> (and (not (= (base %s) 0)) (< (base %s) %s) %s) (= (select %s %s) (select %s %s)))", sk, sk, a0, not(inM), hr, sk, h0, sk)
 		if isRelComp(k) {
 			goal = fmt.Sprintf("(or %s (= %s %s))", inM, hr, h0)
 		}
